@@ -17,7 +17,7 @@ THEOREMS = [P + t for t in (
     "lt_refl", "lt_trans", "lt_antisymm", "lt_iff_fields", "gt_iff_fields", "not_lt_names_deficit",
     "eq_trans", "eq_zero_zero", "eq_zero_iff", "add_congr", "sub_congr",
     "no_operator_hooks", "aug_assign_pure", "running_total", "step_prefix", "objects_never_modified", "object_value_stable",
-    "aug_leaves_other_holders", "fmtComma_neg", "toStr_empty_iff", "deficit_is_printable", "groupDigits_filter", "fmtComma_digits")]
+    "aug_leaves_other_holders", "result_is_fresh", "result_aliases_nothing", "operands_survive_result_updates", "fmtComma_neg", "toStr_empty_iff", "deficit_is_printable", "groupDigits_filter", "fmtComma_digits")]
 TRUSTED_BASE = [
     "gen/capops.py + gen/symexec.py: the operators are executed symbolically (all paths) on operands whose fields are distinct symbols; "
     "the extractor checks on every path that the result is a new object, the operands hold the same objects afterwards, and that the "
@@ -179,7 +179,8 @@ def impl_prog(cl, objs, stmts, on_step=None):
                 env[d] = env[x]
                 r, want = None, None
             if on_step:
-                on_step(st, before, [list(_vals(h)) for h in heap], None if r is None else list(_vals(r)), want)
+                on_step(st, before, [list(_vals(h)) for h in heap], None if r is None else list(_vals(r)), want,
+                        None if r is None else reg(r) >= len(before))
         return ["ok", [[reg(o) for o in env], [_vals(h) for h in heap]]]
     except Exception as e:
         return ["err", err_kind(e)]
@@ -190,8 +191,11 @@ def check_program(cl, objs, stmts, res):
     whoever else holds a reference to it; and the statement's result is the field-wise sum / difference of the old values"""
     case = {"objs": objs, "stmts": stmts}
 
-    def on_step(st, before, after, result, want):
+    def on_step(st, before, after, result, want, fresh):
         tag = st[0] + (":" + ("add" if st[1] else "sub") if st[0] in ("bin", "aug") else "")
+        if fresh is False:
+            res.violation("C15:result_fresh:prog:" + tag, "the statement's result IS an object that existed before it (an operand / what another "
+                          "variable holds): updating the result in place later changes that object", case)
         if after[:len(before)] != before:
             k = [i for i in range(len(before)) if after[i] != before[i]][0]
             res.violation("C15:operands_unchanged:prog:" + tag, "a statement changed an object that existed before it (object %d)" % k, case,
@@ -315,6 +319,64 @@ def check_laws(cl, a, b, c, res):
         bad("raises:" + err_kind(e), "capacity operation raised %s: %s" % (type(e).__name__, e))
 
 
+BUMP = 4
+
+
+def check_fresh(cl, a, b, res):
+    """operands are never modified - also not THROUGH THE RESULT: the result of every operation is a new object (`is not` either
+    operand, whatever the operand values - an all-zero operand included), so updating the result's fields in place afterwards
+    (running free / allocated bookkeeping: `r.core -= 4`) leaves the operands, and FreeCapacity's total, as they were"""
+    z = [0] * len(a)
+    pairs = [("", a, b), (":zero-right", a, z), (":zero-left", z, b), (":zero-both", z, z), (":same-value", a, a)]
+    ops = [("add", lambda A, B: A + B), ("sub", lambda A, B: A - B),
+           ("free", lambda A, B: cl.FreeCapacity(total=A, allocated=B).free),
+           ("free-none", lambda A, B: cl.FreeCapacity(total=A, allocated=None).free),
+           ("free-attr", lambda A, B: cl.FreeCapacity(total=A, allocated=B))]
+    for tag, x, y in pairs:
+        for op, f in ops:
+            case = {"fresh": op + tag, "a": x, "b": y}
+            try:
+                A, B = _mk(cl, x), _mk(cl, y)
+                if op == "free-attr":
+                    fc = f(A, B)
+                    r, tot = fc.free, fc.total
+                else:
+                    r, tot = f(A, B), None
+                alias = "the left operand / total" if r is A else ("the right operand / allocated" if r is B else
+                                                                   ("FreeCapacity.total" if (tot is not None and r is tot) else None))
+                for k in list(r.__dict__):           # update the result in place, field by field
+                    setattr(r, k, getattr(r, k) - BUMP)
+                changed = [n for n, o, v in (("left operand / total", A, x), ("right operand / allocated", B, y)) if _vals(o) != list(v)]
+                if tot is not None and _vals(tot) != list(x):
+                    changed.append("FreeCapacity.total")
+                if alias or changed:
+                    res.violation("C15:operands_unchanged:via_result:" + op + tag,
+                                  "the result of %s is not a new object (it is %s): updating the result in place changed %s" % (
+                                      op, alias or "sharing state with an operand", ", ".join(changed) or "nothing yet"),
+                                  case, expected=[list(x), list(y)], observed=[_vals(A), _vals(B)])
+                elif _vals(r) != [(p + q if op == "add" else p - (0 if op == "free-none" else q)) - BUMP for p, q in zip(x, y)]:
+                    res.violation("C15:result_value:" + op + tag, "the result (after the in-place update) is not the field-wise value", case,
+                                  observed=_vals(r))
+            except Exception as e:
+                res.violation("C15:raises:" + err_kind(e), "capacity operation raised %s: %s" % (type(e).__name__, e), case)
+    # the same through a name that is rebound: acc = a; acc += z; acc.f -= 4  must not reach a
+    for tag, x, y in pairs:
+        for op in ("iadd", "isub"):
+            A, B = _mk(cl, x), _mk(cl, y)
+            acc = A
+            if op == "iadd":
+                acc += B
+            else:
+                acc -= B
+            for k in list(acc.__dict__):
+                setattr(acc, k, getattr(acc, k) - BUMP)
+            if acc is A or acc is B or _vals(A) != list(x) or _vals(B) != list(y):
+                res.violation("C15:operands_unchanged:via_result:" + op + tag,
+                              "`acc = a; acc %s= b` left acc bound to an operand object: updating acc in place changed the operand" % (
+                                  "+" if op == "iadd" else "-"), {"fresh": op + tag, "a": x, "b": y},
+                              expected=[list(x), list(y)], observed=[_vals(A), _vals(B)])
+
+
 def oracle(ctx, res, n=None):
     import fim.slivers.capacities_labels as cl
     nf = len(cl.Capacities().__dict__)
@@ -324,6 +386,10 @@ def oracle(ctx, res, n=None):
         if any(a) and any(b):
             res.nontrivial.add(canon([a, b]))
         check_laws(cl, a, b, c, res)
+    for a, b, c in cases[:max(50, len(cases) // 10)]:
+        res.evaluations += 1
+        res.count("oracle:fresh")
+        check_fresh(cl, a, b, res)
     progs = gen_programs(ctx.sub_rng("oracle-prog"), (n or ctx.scale(3000, 100000)) // 6, nf)
     for objs, stmts in progs:
         res.evaluations += 1
@@ -343,6 +409,8 @@ def replay(ctx, payload):
     c = payload["case"]
     if "stmts" in c:
         check_program(cl, c["objs"], c["stmts"], r)
+    elif "fresh" in c:
+        check_fresh(cl, c["a"], c["b"], r)
     else:
         check_laws(cl, c["a"], c["b"], c["c"], r)
     for v in r.violations:
